@@ -24,6 +24,7 @@ func init() {
 			"(R2) on every control-flow path each handler performs at most one emission among {alpha change, beta change, conflict}; reconcile itself emits only ancestor changes; " +
 			"(R3) every Conflict literal has Root = the handler's path and both change lists provably non-empty on that path: a one-element literal, a list guarded len>0, or the side's ancestor diff on a path where the opposite side's diff is empty (disagreement invariant); " +
 			"(R4) Conflict.EnsureValid rejects an empty list on either side; (R5) every change literal emitted carries Path = path. " +
+			"(R3 addition) the lists stored in a Conflict are its own storage: a literal or the result of a package-level function, never a slice handed out by a method of the reconciler (a reused scratch buffer would be overwritten by the next conflict); " +
 			"Not decided: semantic non-emptiness beyond those three derivations; that Root covers all paths inside the listed changes (follows from diff's path construction, C01.R5).",
 		Assumptions: []string{"if alpha and beta disagree at a node and one side's synchronizable diff against the ancestor is empty, the other side's is not (argued in reconcile.go's comments)"},
 		Run:         runC06,
